@@ -9,15 +9,15 @@ ID = 'C12'
 ENGINE = 'detsched'
 TECHNIQUE = 'runtime monitoring under a deterministic cooperative scheduler with a virtual clock: happens-after checker (no dispatch and no timed posting after stop() returned), thread liveness, liveness of a second object and of the fabric, exact deadlock detection'
 RULE = ('an ActiveObject with 0-3 timed sources, 0-3 poster threads and a handler that may post, a SECOND active object and a plain queue '
-        'subscribed to the fabric; stop() is called at a random virtual instant (coinciding with a timer instant in half of the runs) from '
+        'subscribed to the fabric; stop() is called at a random virtual instant (in part of the runs while the current step of the object is arming a further timed source) (coinciding with a timer instant in half of the runs) from '
         'the harness thread or from inside one of the object\'s own handlers. After stop() returned from outside: the object\'s thread has '
         'ended, no dispatch-enter record and no posting by one of its timed sources carries a later step, a post to the second object is '
         'still dispatched and a fabric publication still reaches its subscriber; stop() inside a handler: no exception escapes, no further '
         'step runs after the current one, the thread has ended at quiescence; stop() never deadlocks. distinct_nontrivial = distinct '
         '(inside/outside, sources, posters, context-switch sequence prefix) tuples')
 CASES = {'quick': 1200, 'thorough': 80000}
-BUDGET = {'quick': 50, 'thorough': 1200}
-REQUIRE = {'runs': 500, 'stop_from_outside': 200, 'stop_from_handler': 150, 'runs_with_timed_sources': 300, 'stop_coincides_with_posting': 100}
+BUDGET = {'quick': 50, 'thorough': 300}
+REQUIRE = {'runs': 500, 'stop_from_outside': 200, 'stop_from_handler': 150, 'runs_with_timed_sources': 300, 'stop_coincides_with_posting': 100, 'step_arms_timed_source_during_stop': 100}
 ASSUME = ['instantaneous-computation time model']
 ANNOUNCE_CASES = True
 
@@ -49,7 +49,13 @@ def run_case(ctx, n):
           raise
         rec['exc'] = repr(ex)
       rec['ret'] = ds.S.steps
-    st = timersim.make_state(run, [do_stop], spied=rng.random() < 0.5)
+    armsrc = {'i': 50, 'sig': 'TICK_ARMED', 'kind': rng.choice(['fifo', 'lifo']), 'period': rng.choice([0.01, 0.05]), 'times': 0,
+              'deferred': rng.choice([True, False]), 'start_delay': 0.0}
+
+    def do_arm(chart):
+      timersim.start_source(chart, run, armsrc)
+    st = timersim.make_state(run, [do_stop, do_arm], spied=rng.random() < 0.5)
+    arm_in_last_step = (not inside) and rng.random() < 0.4
     fanB = {}
     stB = aosim.make_state(histB, fanB, spied=True, name='b_state')
     fabric_q = collections.deque()
@@ -79,6 +85,10 @@ def run_case(ctx, n):
         ao.post_fifo(Event(signal='DO', payload=0))
         ds.STime.sleep(0.0007)
       else:
+        if arm_in_last_step:
+          # the object's current step arms a timed source while stop() is called from outside
+          ao.post_fifo(Event(signal='DO', payload=1))
+          ctx.count('step_arms_timed_source_during_stop')
         do_stop(ao)
       alive_after = ao.thread.is_alive()
       # the rest of the system must keep working
@@ -100,7 +110,7 @@ def run_case(ctx, n):
     if coincide:
       ctx.count('stop_coincides_with_posting')
     wsrc = [dict((k, v) for k, v in x.items() if k != 'event') for x in sources]
-    wit = {'sources': wsrc, 'posters': nposters, 'inside_handler': inside, 'stop': rec, 'policy': pol}
+    wit = {'sources': wsrc, 'posters': nposters, 'inside_handler': inside, 'stop': rec, 'policy': pol, 'step_arms_source_during_stop': arm_in_last_step, 'armed': 50 in run.ids}
     ctx.distinct((inside, len(sources), nposters, coincide, s.signature()[:50]))
     if 'ret' not in rec:
       ctx.violation('C12/stop-never-ran', 'stop() was never executed / did not return', wit)
